@@ -184,7 +184,7 @@ def denormalize_pixels_range(pixels, out_dtype):
             "is unknown".format(out_dtype)
         )
 
-    return (pixels * max_range).astype(out_dtype)
+    return np.rint(pixels * max_range).astype(out_dtype)
 
 
 def channels_to_back(pixels):
